@@ -61,7 +61,7 @@ func pkgOf(fn *ssa.Function) string {
 
 func cstr(v Value) string {
 	s, ok := v.(strV)
-	if !ok || s.opaque {
+	if !ok || s.opaque || s.ite != nil {
 		panic(unsupported("concrete string expected"))
 	}
 	return s.s
@@ -555,6 +555,32 @@ func init() {
 	I["internal/race.ReleaseMerge"] = I["runtime.Gosched"]
 	I["internal/race.Read"] = I["runtime.Gosched"]
 	I["internal/race.Write"] = I["runtime.Gosched"]
+	// ---- gRPC status errors: record the code, message opaque
+	statusErr := func(ex *Exec, code Value) Value {
+		c := int(ex.cint(code, "status-code"))
+		if c == 0 {
+			return ex.nilErr()
+		}
+		e := ex.newError("rpc error", true)
+		ex.errCodes[e.(ifaceV).v.(Ptr).slot] = c
+		return e
+	}
+	for _, pk := range []string{"github.com/gogo/status", "google.golang.org/grpc/status"} {
+		I[pk+".Errorf"] = func(ex *Exec, th *Thread, fn *ssa.Function, a []Value) (Value, bool) { return statusErr(ex, a[0]), false }
+		I[pk+".Error"] = func(ex *Exec, th *Thread, fn *ssa.Function, a []Value) (Value, bool) { return statusErr(ex, a[0]), false }
+		I[pk+".Code"] = func(ex *Exec, th *Thread, fn *ssa.Function, a []Value) (Value, bool) {
+			iv, _ := a[0].(ifaceV)
+			if iv.t == nil {
+				return ex.tc.Const(32, 0), false
+			}
+			if p, ok := iv.v.(Ptr); ok && p.slot != nil {
+				if c, ok := ex.errCodes[p.slot]; ok {
+					return ex.tc.Const(32, uint64(c)), false
+				}
+			}
+			return ex.tc.Const(32, 2), false
+		}
+	}
 	// ---- proto.Clone: deep copy of the object graph
 	I["google.golang.org/protobuf/proto.Clone"] = func(ex *Exec, th *Thread, fn *ssa.Function, a []Value) (Value, bool) {
 		return ex.deepCopy(a[0], map[*Value]*Value{}), false
